@@ -144,6 +144,8 @@ def run(chk, which="C14"):
     dropped = []
     jobs = [(si, a, b, fl) for fl in flav for si, (a, b) in enumerate(shards)]
     results = core.pmap(lambda j: (j[3], build_and_run(j[0], j[1], j[2], units, j[3], nrandom, dropped)), jobs)
+    bad_ids = {d["id"] for d in dropped}
+    core.reach(chk, emit_tu([x for x in pairs if x["id"] not in bad_ids][::7][:30], [x for x in pows if x["id"] not in bad_ids][::5][:16], units), [[30, 1]])
     # compile-outcome probes for the guards
     probes = guard_probes()
     pre = '#include "au/au.hh"\n' + planeb.unit_includes(units) + "\n#include <cstdint>\n"
